@@ -70,6 +70,11 @@ def environment(rnd):
             If(Bin('>', P('n'), I(k3)), [Ret()]),
             Create('made', 'B'),
             Assign(Field(V('made'), 'N'), P('n'))]},
+        # a value on one path, no return statement on the other: an invocation that executes no return delivers nothing,
+        # whatever the same function delivered before
+        'gate': {'params': ['n'], 'ret': 'integer', 'ptypes': {'n': 'integer'}, 'body': [
+            If(Bin('>', P('n'), I(k3)), [Ret(Bin('*', P('n'), I(10)))]),
+            Assign(V('x'), P('n'))]},
         # returns through nested control flow
         'search': {'params': ['limit'], 'ret': 'integer', 'ptypes': {'limit': 'integer'}, 'body': [
             Assign(V('c'), I(0)),
@@ -353,4 +358,7 @@ def python_calls(rnd, env):
     for c in env['consts']:
         calls.append({'k': 'const', 'ns': '', 'n': c, 'ps': []})
     rnd.shuffle(calls)
+    # (in this order: a value, nothing, a value, nothing)
+    for n in (9, 0, 7, 0):
+        calls.append({'k': 'func', 'ns': '', 'n': 'gate', 'ps': [{'n': 'n', 'e': I(n)}]})
     return calls
